@@ -1,6 +1,7 @@
 package main
 
 import (
+	"os"
 	"fmt"
 	"go/constant"
 	"go/token"
@@ -262,7 +263,7 @@ func (v *Val) Pretty() string {
 		return fmt.Sprintf("%v", v.Aux)
 	}
 	k := v.Key()
-	if len(k) > 120 {
+	if len(k) > 120 && !prettyFull {
 		k = k[:120] + "…"
 	}
 	return k
@@ -568,6 +569,27 @@ func nilness(v *Val) int {
 	case "call":
 		if v.Name == "fmt.Errorf" || v.Name == "errors.New" {
 			return +1
+		}
+	case "conv":
+		// a conversion between a type and a defined type of the same kind (func(*T) to an Option type, a pointer, map,
+		// channel or slice to its named twin) keeps nil nil and non-nil non-nil
+		if len(v.Args) == 1 && v.Type != nil && v.Args[0] != nil && v.Args[0].Type != nil {
+			sameKind := false
+			switch v.Type.Underlying().(type) {
+			case *types.Signature:
+				_, sameKind = v.Args[0].Type.Underlying().(*types.Signature)
+			case *types.Pointer:
+				_, sameKind = v.Args[0].Type.Underlying().(*types.Pointer)
+			case *types.Map:
+				_, sameKind = v.Args[0].Type.Underlying().(*types.Map)
+			case *types.Chan:
+				_, sameKind = v.Args[0].Type.Underlying().(*types.Chan)
+			case *types.Slice:
+				_, sameKind = v.Args[0].Type.Underlying().(*types.Slice)
+			}
+			if sameKind {
+				return nilness(v.Args[0])
+			}
 		}
 	case "choice":
 		n := nilness(v.Args[0])
@@ -894,3 +916,5 @@ func typeUnder(t types.Type) types.Type {
 	}
 	return t.Underlying()
 }
+
+var prettyFull = os.Getenv("FPCHECK_FULL") != ""
